@@ -893,6 +893,13 @@ class Translator:
                 return '%s(%s)' % (name, ', '.join(self.e(a) for a in args))
             if name == 'abort':
                 return 'VERIF_ASSERT(0, "abort", 0)'
+            if name in ('any_of', 'all_of', 'none_of') and len(args) == 3 and strip_casts(args[2]).get('kind') == 'LambdaExpr':
+                return self.algo_pred(name, args)
+            if name == 'size' and len(args) == 1:
+                m = re.search(r'\[(\d+)\]', qt(strip_casts(args[0])['type']))
+                if m:
+                    self.rules['std::size(T[N]) -> N'] += 1
+                    return '((u64)%sull)' % m.group(1)
             raise Unsupported('external call ' + str(name))
         if name == 'Assert':
             self.rules['UNREACHABLE() -> VERIF_ASSERT(0)'] += 1
@@ -1078,6 +1085,9 @@ class Translator:
             if name.startswith('operator ') : return self.e(args[0])
         if name == 'operator[]' and t0.startswith('std::array<'):
             return '%s.e[%s]' % (self.e(args[0]), self.e(args[1]))
+        if name == 'operator*' and (t0.startswith('std::shared_ptr<') or t0.startswith('std::__shared_ptr_access<')) and getattr(self, 'curfn', None) == 'vmmio':
+            self.rules['*shared_ptr<u16> (cell backing word) -> *pointer'] += 1
+            return '(m->st[%s])' % self.e(strip_casts(args[0]))
         if name == 'operator[]' and (t0.startswith('std::basic_string<char') or t0 == 'std::string' or t0.startswith('std::__cxx11::basic_string<char')):
             self.rules['std::string::operator[] -> .p[i]'] += 1
             return '%s.p[%s]' % (self.e(args[0]), self.e(args[1]))
@@ -1093,6 +1103,11 @@ class Translator:
                 return '(%s = %s)' % (self.e(args[0]), self.e(args[1]))
         if name == 'operator()' and t0.startswith('std::function<'):
             fld, ot, ox = self.fn_field(args[0])
+            if getattr(self, 'mmio_cur_slot', None) is not None and ot == 'BitFieldSlot' and fld['name'] in ('set', 'get'):
+                tgt = self.mmio_slots[self.mmio_cur_slot][2 if fld['name'] == 'set' else 3]
+                self.rules['BitFieldSlot closure invocation -> the slot\'s own closure function'] += 1
+                if tgt is None: return '(VERIF_FN_CHECK(%s), (u16)0)' % self.e(args[0])
+                return '%s(%s)' % (tgt, ', '.join(['m'] + [self.e(a) for a in args[1:]]))
             sn = 'CB_%s_%s' % (ot, fld['name'])
             rt = self.ctype(n['type'])
             ats = [self.ctype(a['type']).replace('const ', '') for a in args[1:]]
@@ -1134,6 +1149,43 @@ class Translator:
 
     def e_LambdaExpr(self, n):
         raise Unsupported('lambda')
+
+    def algo_pred(self, name, args):
+        """std::any_of / all_of / none_of(first, last, [](const auto& x) { ... }) over array iterators with a capture-less lambda:
+        the lambda's operator() (the instantiation the call uses) becomes a static C function, the algorithm an element loop"""
+        lam = strip_casts(args[2])
+        rec = [c for c in inner(lam) if c.get('kind') == 'CXXRecordDecl'][0]
+        if [c for c in inner(rec) if c.get('kind') == 'FieldDecl']: raise Unsupported('std::%s with a capturing lambda' % name)
+        md = None
+        for c in inner(rec):
+            if c.get('kind') == 'CXXMethodDecl' and c.get('name') == 'operator()' and has_body(c): md = c
+            if c.get('kind') == 'FunctionTemplateDecl' and c.get('name') == 'operator()':
+                for x in inner(c):
+                    if x.get('kind') == 'CXXMethodDecl' and has_body(x) and any(y.get('kind') == 'TemplateArgument' for y in inner(x)): md = x
+        if md is None: raise Unsupported('std::%s: no instantiated operator() in the lambda' % name)
+        ps = [c for c in inner(md) if c.get('kind') == 'ParmVarDecl']
+        if len(ps) != 1: raise Unsupported('std::%s predicate arity' % name)
+        pt = self.ctype(ps[0]['type'])
+        if not pt.rstrip().endswith('*'): raise Unsupported('std::%s predicate takes its element by value' % name)
+        k = self.lam_count = getattr(self, 'lam_count', 0) + 1
+        ln = 'verif_lambda_%d' % k; an = 'verif_%s_%d' % (name, k)
+        body = [c for c in inner(md) if c.get('kind') == 'CompoundStmt'][0]
+        save = (self.curfn, self.loopno, self.renames, self.bindings, getattr(self, 'cur_ret_ref', False), self.pre_stmts)
+        self.loopno = 0; self.cur_ret_ref = False; self.pre_stmts = None
+        try:
+            lines = self.s(body, 0)
+        finally:
+            (self.curfn, self.loopno, self.renames, self.bindings, self.cur_ret_ref, self.pre_stmts) = save
+        first, last = self.e(args[0]), self.e(args[1])
+        test = {'any_of': ('if (%s(first)) return 1;', '0'), 'all_of': ('if (!%s(first)) return 0;', '1'), 'none_of': ('if (%s(first)) return 0;', '1')}[name]
+        txt = '/* lambda passed to std::%s */\nstatic inline bool %s(%s%s)\n%s\n/* std::%s */\nstatic inline bool %s(%sfirst, %slast)\n{\n    while (first != last) { %s ++first; }\n    return %s;\n}\n' % (
+            name, ln, pt, self.local_name(ps[0]), '\n'.join(lines), name, an, pt, pt, test[0] % ln, test[1])
+        self.protos[an] = 'static inline bool %s(%s%s);\nstatic inline bool %s(%sfirst, %slast);' % (ln, pt, self.local_name(ps[0]), an, pt, pt)
+        self.out_funcs[an] = txt
+        self.func_src[an] = ('std::' + name, '', 0)
+        if self.curfn: self.calls[self.curfn].add(an)
+        self.rules['std::%s with a capture-less lambda -> element loop + static predicate function' % name] += 1
+        return '%s(%s, %s)' % (an, first, last)
 
     # ------------------------------------------------------------------ function demand
     def use_func(self, fid):
@@ -1363,6 +1415,22 @@ class Translator:
             self.rules['range-for over std::array -> index loop'] += 1
             bound = m.group(2)
             elem = '%s.e[%s]' % (rx, it)
+        elif getattr(self, 'mmio_slots', None) is not None and rq.startswith('std::vector<') and 'BitFieldSlot' in rq:
+            # partial evaluation of MMIORegion's binding table (extract/mmio_table.py): the slot list of this cell is known, the loop is unrolled
+            self.rules['range-for over the BitFieldSlot list of a cell -> unrolled over the evaluated slots'] += 1
+            out = []
+            bt = lt.replace('const ', '').rstrip(' *').strip()
+            for k, (pos, ln, sfn, gfn) in enumerate(self.mmio_slots):
+                self.mmio_cur_slot = k
+                try:
+                    out += [p + '{', p + '    const %s verif_slot_%d = {%s, %s, {%d}, {%d}};' % (bt, k, pos, ln, 1 if sfn else 0, 1 if gfn else 0),
+                            p + '    %s%s = &verif_slot_%d;' % (lt if isref else (lt + '*'), self.local_name(lv), k)]
+                    out += self.block(body, ind + 1)
+                    out += [p + '}']
+                finally:
+                    self.mmio_cur_slot = None
+            if not isref: raise Unsupported('slot loop variable by value')
+            return out
         elif rq.startswith('std::vector<') and self.ctype_s(rq) == 'verif_vec_ptr':
             self.rules['range-for over std::vector<T*> -> index loop'] += 1
             bound = '%s.len' % rx
@@ -1709,6 +1777,9 @@ class Translator:
         for r in roots:
             if r.startswith('DECODE_TABLE:') or r.startswith('DECODE_MATCH:'):
                 rootnames.append(self.emit_decode_table(r.split(':', 1)[1], calls=r.startswith('DECODE_TABLE:')))
+            elif r.startswith('MMIO_TABLE:'):
+                import mmio_table
+                rootnames.append(mmio_table.MmioEmitter(self, r.split(':', 1)[1]).run())
             else:
                 plain.append(r)
         roots = plain
@@ -1774,6 +1845,7 @@ class Translator:
                 m = re.match(r'typedef struct (\w+) \{\n    (Enum(?:All)?Operand_\w+) base_0;\n\} \1;\s*$', v or '')
                 if m and (m.group(2) + '_GetName') in self.out_funcs:
                     f.write('#define %s_GetName(p) %s_GetName(&(p)->base_0)\n' % (m.group(1), m.group(2)))
+            for k, v in getattr(self, 'tail_records', {}).items(): f.write(v + '\n')
             for k, v in self.globals.items():
                 # guarded: two units translated from different TUs may define the same class-scope constant (identical text) in one harness
                 if v: f.write('#ifndef VERIF_G_%s\n#define VERIF_G_%s\n%s\n#endif\n' % (k, k, v))
@@ -1962,7 +2034,7 @@ class Translator:
         return {'functions': {k: {'cxx': v[0], 'file': v[1], 'line': v[2]} for k, v in self.func_src.items()},
                 'failed': self.failed, 'rules': dict(self.rules), 'dropped': dict(self.dropped),
                 'stubs': list(self.stubs), 'calls': {k: sorted(v) for k, v in self.calls.items()},
-                'records': {k: self.rec_cxx.get(k) for k in self.records}, 'decode_entries': getattr(self, 'decode_entries', {})}
+                'records': {k: self.rec_cxx.get(k) for k in self.records}, 'decode_entries': getattr(self, 'decode_entries', {}), 'mmio_cells': getattr(self, 'mmio_cells', None)}
 
 
 def apply_symbol_prefix(t, out_c, prefix):
